@@ -107,12 +107,12 @@ func reachCases(thorough bool) (cases []clirig.ReachCase, fam map[string]int, bo
 		}
 		// F4: two CONCURRENT RefreshMetadata calls after a healthy NewClient (both pick the same first candidate; its
 		// failure is handled twice), followed by a single call under the same behaviours (what did the concurrent phase
-		// leave behind?)
+		// leave behind?) and a last one after the cluster has healed (every address answers: it must succeed)
 		for n := 2; n <= 3; n++ {
 			for known := 0; known <= 1; known++ {
 				for _, p := range perms(n) {
 					for _, w := range words(alpha, n+known) {
-						cases = append(cases, clirig.ReachCase{Seeds: p, Known: known, RM: rm, New: strings.Repeat("A", n), Refresh: []string{w, w}, Pick: picks(known)[0], Conc: 2})
+						cases = append(cases, clirig.ReachCase{Seeds: p, Known: known, RM: rm, New: strings.Repeat("A", n), Refresh: []string{w, w, strings.Repeat("A", n+known)}, Pick: picks(known)[0], Conc: 2})
 						fam["refresh-concurrent"]++
 					}
 				}
